@@ -98,10 +98,25 @@ func c04Chains(c *core.Ctx, hidx int, h *hist.History, l *hist.Layout, exp []his
 			}
 		}
 	}
+	// attempts that fail before a connection / reader exists, and transport read errors
+	for _, kind := range preconnKinds {
+		firsts = append(firsts, faultSpec{Kind: kind})
+	}
+	for i := 0; i < 6; i++ {
+		firsts = append(firsts, faultSpec{Kind: "read-error", At: r.Intn(3000)})
+	}
 	randFault := func() faultSpec {
 		f := firsts[r.Intn(len(firsts))]
 		// later attempts start further in; indices are clamped by runAttempt
 		return f
+	}
+	if !c.Quick() && hidx < 2 {
+		// pairs of consecutive failed attempts: every first fault x every 8th second fault
+		for _, f1 := range firsts {
+			for j := hidx; j < len(firsts); j += 8 {
+				out = append(out, c04Scn{Hist: hidx, Chain: []faultSpec{f1, firsts[j]}})
+			}
+		}
 	}
 	for _, f := range firsts {
 		ch := []faultSpec{f}
@@ -117,10 +132,10 @@ func c04Chains(c *core.Ctx, hidx int, h *hist.History, l *hist.Layout, exp []his
 }
 
 func checkC04(c *core.Ctx) {
-	c.SetRule("per small generated history (3..6 transactions, half with a rotation): every packet index of the first attempt x 13 packet fault kinds, every transaction ordinal x {cancel in handler, handler error}, mapper error / column-count mismatch on its first 4 calls, each x pacing {far-ahead, lock-step}; 0..2 further seeded failed attempts; then a clean attempt to EOF, all on ONE streamer; distinct by (history bytes, chain); non-trivial iff the faulting attempt was reached and the chain has >=2 attempts")
+	c.SetRule("per small generated history (3..6 transactions, half with a rotation): every packet index of the first attempt x 13 packet fault kinds, every transaction ordinal x {cancel in handler, handler error}, mapper error / column-count mismatch on its first 4 calls, each x pacing {far-ahead, lock-step}; 8 kinds of attempts failing before a reader exists; transport read errors at random byte offsets; 0..2 further seeded failed attempts; then a clean attempt to EOF, all on ONE streamer; distinct by (history bytes, chain); non-trivial iff the faulting attempt was reached and the chain has >=2 attempts")
 	c.Assume("a transaction counts as accepted iff the handler returned nil for it")
 	c.Assume("simulated master rejects a dump position that is not an event boundary (bad-resume)")
-	nh := c.N(8, 60)
+	nh := c.N(8, 200)
 	if c.Replay != "" {
 		var w struct {
 			Witness struct {
@@ -183,14 +198,17 @@ func c04Run(c *core.Ctx, scn c04Scn, h *hist.History, l *hist.Layout, tables []*
 		// the position this attempt must request
 		valid := validResume(h, l, exp, start, ls.last)
 		ta := time.Now()
-		ob := runAttempt(c, s, l, valid[0], spec, attemptOpts{ErrorCalls: 1, ErrorFirst: true}, r)
+		ob := runStop(c, s, l, valid[0], stopScn{Hist: scn.Hist, Spec: spec, Wrapped: true}, attemptOpts{ErrorCalls: 1, ErrorFirst: true}, r)
 		if debugTiming {
 			fmt.Fprintf(os.Stderr, "C04 timing %v attempt %d %s: %v\n", scn.Chain, ai, spec, time.Since(ta))
 		}
 		res := ob.Res
 		if res.Verdict != run.Returned {
 			if res.Verdict == run.Stuck {
-				c.Cell("stream-stuck(reported under C05)")
+				c.Cell("stream-stuck(reported under C05):" + spec.Kind)
+				if debugTiming {
+					fmt.Fprintf(os.Stderr, "STUCK %v\n%v\n", scn, gdump(res.StuckDump))
+				}
 			} else {
 				c.Inconclusive(fmt.Sprintf("C04 %v attempt %d: Stream did not return; undecided", scn.Chain, ai))
 			}
